@@ -148,6 +148,35 @@ def variant_source(kind, source):
                     else:
                         i += 1
         return ast.unparse(ast.fix_missing_locations(tree))
+    if kind == "inline":
+        # v = expr ; <simple statement using v exactly once>  ->  the statement with expr in place of v
+        # (v assigned once and read once in the whole function)
+        for fn in [n for n in ast.walk(tree) if isinstance(n, ast.FunctionDef)]:
+            loads, stores = {}, {}
+            for x in ast.walk(fn):
+                if isinstance(x, ast.Name):
+                    d = loads if isinstance(x.ctx, ast.Load) else stores
+                    d[x.id] = d.get(x.id, 0) + 1
+            for n in ast.walk(fn):
+                for f in ("body", "orelse"):
+                    v = getattr(n, f, None)
+                    if not (isinstance(v, list) and v and isinstance(v[0], ast.stmt)):
+                        continue
+                    i = 0
+                    while i + 1 < len(v):
+                        a, b = v[i], v[i + 1]
+                        if isinstance(a, ast.Assign) and len(a.targets) == 1 and isinstance(a.targets[0], ast.Name) and isinstance(b, (ast.Assign, ast.Expr, ast.Return, ast.AugAssign)):
+                            nm = a.targets[0].id
+                            uses = [x for x in ast.walk(b) if isinstance(x, ast.Name) and x.id == nm and isinstance(x.ctx, ast.Load)]
+                            if stores.get(nm) == 1 and loads.get(nm) == 1 and len(uses) == 1 and not any(isinstance(x, (ast.Lambda, ast.ListComp, ast.GeneratorExp, ast.DictComp, ast.SetComp)) for x in ast.walk(b)):
+                                class R(ast.NodeTransformer):
+                                    def visit_Name(self, node):
+                                        return a.value if (node.id == nm and isinstance(node.ctx, ast.Load)) else node
+                                v[i + 1] = R().visit(b)
+                                del v[i]
+                                continue
+                        i += 1
+        return ast.unparse(ast.fix_missing_locations(tree))
     if kind == "numpy":
         has = any(isinstance(n, ast.Import) and any(a.name == "numpy" and a.asname == "np" for a in n.names) for n in ast.walk(tree))
         if not has:
